@@ -48,9 +48,10 @@ type interpreter struct {
 }
 
 type chanModel struct {
-	kind   string // "ticker" or "timer"
-	period int64  // ns
-	fired  int
+	kind    string // "ticker" or "timer"
+	period  int64  // ns
+	fired   int
+	created *Term // modelled clock advance when the timer was created
 }
 
 type deferred struct {
@@ -496,6 +497,13 @@ func (i *interpreter) doSelect(instr *ssa.Select, fr *frame) value {
 		chosen = ties[i.path.concretize(sel, "select tie").Int64()]
 	}
 	chosen.cm.fired++
+	// waiting for the event lets the modelled clock advance to the event time
+	if chosen.cm.created != nil {
+		at := Add(chosen.cm.created, IntC(chosen.at))
+		p := i.path
+		p.base()
+		p.clockAdv = Ite(Gt(at, p.clockAdv), at, p.clockAdv)
+	}
 	total := 0
 	for _, cm := range i.chanKinds {
 		if cm.kind == "ticker" {
